@@ -520,9 +520,22 @@ func mk3(r *Rng, op string, depth int, scale float64, o genOpts) *node {
 		k := kid()
 		sc := v3.Vec{X: r.R(0.5, 2), Y: r.R(0.5, 2), Z: r.R(0.5, 2)}
 		m0, d := rigid3(r, scale)
-		m := m0.Mul(sdf.Scale3d(sc))
+		lin := sdf.Scale3d(sc)
+		ld := fmt.Sprintf("Scale(%.3g,%.3g,%.3g)", sc.X, sc.Y, sc.Z)
+		switch r.I(4) {
+		case 0: // volume preserving squeeze: determinant exactly 1, not a rotation
+			f := pickOne(r, []float64{2, 4, 0.5, 1.25})
+			lin, ld = sdf.Scale3d(v3.Vec{X: f, Y: 1 / f, Z: 1}), fmt.Sprintf("Squeeze(%g,%g,1)", f, 1/f)
+			if r.Bool() {
+				lin, ld = sdf.Scale3d(v3.Vec{X: 1, Y: f, Z: 1 / f}), fmt.Sprintf("Squeeze(1,%g,%g)", f, 1/f)
+			}
+		case 1: // shear: determinant exactly 1
+			a, b := r.R(-1, 1), r.R(-1, 1)
+			lin, ld = sdf.NewM44([16]float64{1, a, b, 0, 0, 1, 0, 0, 0, 0, 1, 0, 0, 0, 0, 1}), fmt.Sprintf("Shear(%.3g,%.3g)", a, b)
+		}
+		m := m0.Mul(lin)
 		inv := inv4(m)
-		return wrap3(op, fmt.Sprintf("Transform3D[%s*Scale(%.3g,%.3g,%.3g)]", d, sc.X, sc.Y, sc.Z), sdf.Transform3D(k.s3, m),
+		return wrap3(op, fmt.Sprintf("Transform3D[%s*%s]", d, ld), sdf.Transform3D(k.s3, m),
 			func(p v3.Vec) []float64 { return k.ref3(inv.mulPos(p)) }, k)
 	case "scaleuniform":
 		k := kid()
@@ -635,6 +648,17 @@ func mk3(r *Rng, op string, depth int, scale float64, o genOpts) *node {
 		k := kid()
 		num := v3i.Vec{X: r.IR(1, 3), Y: r.IR(1, 3), Z: r.IR(1, 2)}
 		step := v3.Vec{X: scale * r.R(-3, 3), Y: scale * r.R(-3, 3), Z: scale * r.R(-3, 3)}
+		switch r.I(5) {
+		case 0: // many cells (large arrays take other code paths than small ones)
+			num = pickOne(r, []v3i.Vec{{X: 5, Y: 5, Z: 3}, {X: 9, Y: 8, Z: 1}, {X: 3, Y: 7, Z: 5}, {X: 12, Y: 1, Z: 6}, {X: 1, Y: 70, Z: 1}})
+		case 1: // a long row of strongly overlapping copies (pitch well below the operand size)
+			ax := r.I(3)
+			cnt := r.IR(4, 12)
+			num = [3]v3i.Vec{{X: cnt, Y: 1, Z: 1}, {X: 1, Y: cnt, Z: 1}, {X: 1, Y: 1, Z: cnt}}[ax]
+			sz := k.s3.BoundingBox().Size()
+			step = v3.Vec{X: scale * r.R(-1, 1), Y: scale * r.R(-1, 1), Z: scale * r.R(-1, 1)}
+			step.Set(ax, sz.Get(ax)*r.R(0.05, 0.45)*r.Sign())
+		}
 		s := sdf.Array3D(k.s3, num, step)
 		if s == nil {
 			return nil
@@ -822,22 +846,24 @@ func mk3(r *Rng, op string, depth int, scale float64, o genOpts) *node {
 		k.exact, k.lip1, k.boxlb = k0.exact, k0.lip1, k0.boxlb
 		theta := 0.0
 		if op == "revolvetheta" {
-			theta = pickOne(r, []float64{r.R(0.05, 2*math.Pi-0.05), math.Pi / 2, math.Pi, 1.5 * math.Pi, math.Pi/2 - 1e-3, math.Pi/2 + 1e-3, math.Pi + 1e-3, math.Pi - 1e-3, 1.5*math.Pi + 1e-3, 0.3})
+			theta = pickOne(r, []float64{r.R(0.05, 2*math.Pi-0.05), math.Pi / 2, math.Pi, 1.5 * math.Pi, math.Pi/2 - 1e-3, math.Pi/2 + 1e-3, math.Pi + 1e-3, math.Pi - 1e-3, 1.5*math.Pi + 1e-3, 0.3,
+				2*math.Pi + r.R(0.05, 6.2), 4*math.Pi + r.R(0.05, 6.2), 2*math.Pi + 1.0472}) // angles beyond a full turn are normalised by the constructor
 		}
 		s, err := sdf.RevolveTheta3D(k.s2, theta)
 		if err != nil || s == nil {
 			return nil
 		}
+		thetaN := theta - 2*math.Pi*math.Floor(theta/(2*math.Pi)) // the documented normalisation: theta mod 2pi
 		n := wrap3("revolve", fmt.Sprintf("RevolveTheta3D[theta=%.6g]", theta), s, func(p v3.Vec) []float64 {
 			a := k.ref2(v2.Vec{X: math.Hypot(p.X, p.Y), Y: p.Z})
-			if theta == 0 {
+			if thetaN == 0 {
 				return a
 			}
 			// wedge [0,theta]: two half planes through the axis
 			h0 := -p.Y
-			h1 := -math.Sin(theta)*p.X + math.Cos(theta)*p.Y
+			h1 := -math.Sin(thetaN)*p.X + math.Cos(thetaN)*p.Y
 			var w float64
-			if theta < math.Pi {
+			if thetaN < math.Pi {
 				w = math.Max(h0, h1)
 			} else {
 				w = math.Min(h0, h1)
@@ -846,7 +872,7 @@ func mk3(r *Rng, op string, depth int, scale float64, o genOpts) *node {
 		}, k)
 		n.lip1, n.boxlb = k.lip1, k.boxlb
 		n.exact = op == "revolve-ring" && k.exact
-		n.p = []float64{theta}
+		n.p = []float64{thetaN}
 		return n
 	case "multi", "lineof", "orient":
 		k := kid()
@@ -1043,9 +1069,19 @@ func mk2(r *Rng, op string, depth int, scale float64, o genOpts) *node {
 		k := kid()
 		sc := v2.Vec{X: r.R(0.5, 2), Y: r.R(0.5, 2)}
 		m0, d := rigid2(r, scale)
-		m := m0.Mul(sdf.Scale2d(sc))
+		lin := sdf.Scale2d(sc)
+		ld := fmt.Sprintf("Scale(%.3g,%.3g)", sc.X, sc.Y)
+		switch r.I(4) {
+		case 0:
+			f := pickOne(r, []float64{2, 4, 0.5, 1.25})
+			lin, ld = sdf.Scale2d(v2.Vec{X: f, Y: 1 / f}), fmt.Sprintf("Squeeze(%g,%g)", f, 1/f)
+		case 1:
+			a := r.R(-1, 1)
+			lin, ld = sdf.NewM33([9]float64{1, a, 0, 0, 1, 0, 0, 0, 1}), fmt.Sprintf("Shear(%.3g)", a)
+		}
+		m := m0.Mul(lin)
 		inv := inv3(m)
-		return wrap2(op, fmt.Sprintf("Transform2D[%s*Scale(%.3g,%.3g)]", d, sc.X, sc.Y), sdf.Transform2D(k.s2, m), func(p v2.Vec) []float64 { return k.ref2(inv.mulPos(p)) }, k)
+		return wrap2(op, fmt.Sprintf("Transform2D[%s*%s]", d, ld), sdf.Transform2D(k.s2, m), func(p v2.Vec) []float64 { return k.ref2(inv.mulPos(p)) }, k)
 	case "scaleuniform":
 		k := kid()
 		f := r.LogR(0.3, 3)
@@ -1159,6 +1195,17 @@ func mk2(r *Rng, op string, depth int, scale float64, o genOpts) *node {
 		k := kid()
 		num := v2i.Vec{X: r.IR(1, 4), Y: r.IR(1, 3)}
 		step := v2.Vec{X: scale * r.R(-3, 3), Y: scale * r.R(-3, 3)}
+		switch r.I(5) {
+		case 0:
+			num = pickOne(r, []v2i.Vec{{X: 9, Y: 8}, {X: 5, Y: 14}, {X: 70, Y: 1}, {X: 1, Y: 33}})
+		case 1:
+			sz := k.s2.BoundingBox().Size()
+			if r.Bool() {
+				num, step = v2i.Vec{X: r.IR(4, 12), Y: 1}, v2.Vec{X: sz.X * r.R(0.05, 0.45) * r.Sign(), Y: scale * r.R(-1, 1)}
+			} else {
+				num, step = v2i.Vec{X: 1, Y: r.IR(4, 12)}, v2.Vec{X: scale * r.R(-1, 1), Y: sz.Y * r.R(0.05, 0.45) * r.Sign()}
+			}
+		}
 		s := sdf.Array2D(k.s2, num, step)
 		if s == nil {
 			return nil
